@@ -122,6 +122,7 @@ C["C16"]={"jobs":[job("setters",".","VH_ClientSetters",["C16/"],{},Q,bounds="7 s
    "assumptions":CLIENT_ASSUME+["UAPI constants transcribed from /usr/include/linux/audit.h of this image (see harness constants vUAPI_*)"],"outside":["the live kernel"]}
 C["C17"]={"jobs":[job("history-k3",".","VH_ClientHistory",["C17/"],{"k":3},QO,bounds="histories of 3 operations from {setter NoWait, SetPID NoWait, setter WaitForReply, SetPID WaitForReply (may be refused), WaitForPendingACKs, GetRules, Close}, kernel errno per request symbolic"),
    job("history-k4",".","VH_ClientHistory",["C17/"],{"k":4},Q,bounds="histories of 4 operations"),
+   job("history-k3-seqzero",".","VH_ClientHistory",["C17/"],{"k":3,"seqzero":1},Q,bounds="histories of 3 operations with the request counter anywhere, also passing through 0 (the 2^32 wrap); no unsolicited records in these histories"),
    job("many-nowait-setters-one-refused",".","VH_ClientManyNoWait",["C17/"],{"count":20,"oneerror":1},Q,bounds="20 NoWait setters in a row, any one of them refused by the kernel (symbolic errno): every setter returns nil, the first WaitForPendingACKs returns that error having consumed the ACKs up to it, the second consumes the rest"),
    job("many-nowait-setters",".","VH_ClientManyNoWait",["C17/"],{"count":40},Q,bounds="40 NoWait setters in a row, then WaitForPendingACKs: every ACK consumed exactly once"),
    job("nowait-setters-behind-a-burst",".","VH_ClientManyNoWait",["C17/"],{"count":3,"burst":25},Q,bounds="3 NoWait setters, 25 unsolicited records queued in front of the ACKs, WaitForPendingACKs: every ACK consumed exactly once"),
